@@ -663,7 +663,7 @@ impl Property for C17 {
             }
         }
     }
-    fn extra_coverage(&self, _classes: &std::collections::BTreeMap<String, u64>, cov: &mut serde_json::Map<String, serde_json::Value>) {
+    fn extra_coverage(&self, _classes: &mut std::collections::BTreeMap<String, u64>, cov: &mut serde_json::Map<String, serde_json::Value>) {
         cov.insert("table_rows".into(), serde_json::json!(ROWS.len()));
     }
 }
